@@ -211,7 +211,7 @@ package asm
 //@     requires alldigits(old.Text()[1:len(old.Text())]) && len(old.Text()) <= 19
 //@     ensures  len(result.LocalName) == 0
 //@ func labelIdent
-//@   props C04 C11
+//@   props C04 C05 C11
 //@   pure
 //@   requires len(old.Text()) >= 1 && old.Text()[len(old.Text())-1] == ':'
 //@   ensures result.LocalID >= 0
